@@ -11,6 +11,8 @@
     discard i     doActions: ActionDiscard / ActionCollapse → finalize(event, false, true)
     hold i        doActions: ActionHold → finalize(event, false, false): no back
     propagate i   action plugin calls Propagate(event): processing resumes at the next action
+    spawn i       action plugin calls Spawn(event, nodes): the pooled event becomes the child-parent
+                  (SetChildParentKind), its children are fresh non-pooled events (finOther); ActionBreak
     out i         processSequence: router.Out(event)
     commit i      output calls Commit → finalize(event, true, true)
     finOther      finalize of a child or time-out event: returns before any pool call
@@ -20,7 +22,7 @@
 -/
 namespace FileD.Life
 
-inductive Kind | pass | discard | hold | decErr | refused
+inductive Kind | pass | discard | hold | decErr | refused | split
   deriving DecidableEq, Repr, Inhabited
 
 inductive Pc
@@ -42,7 +44,7 @@ structure St where
 
 inductive Op
   | get (i : Nat) | decodeErr (i : Nat) | refuse (i : Nat) | stream (i : Nat) | take (i : Nat)
-  | discard (i : Nat) | hold (i : Nat) | propagate (i : Nat) | out (i : Nat) | commit (i : Nat)
+  | discard (i : Nat) | hold (i : Nat) | propagate (i : Nat) | spawn (i : Nat) | out (i : Nat) | commit (i : Nat)
   | finOther
   deriving DecidableEq, Repr
 
@@ -94,6 +96,10 @@ def step? (s : St) : Op → Option St
     match s.evs[i]? with
     | some e => if e.pc = .held then some (setEv s i { e with pc := .resumed }) else none
     | none => none
+  | .spawn i =>
+    match s.evs[i]? with
+    | some e => if e.pc = .taken ∧ e.kind = .split then some (setEv s i { e with pc := .resumed }) else none
+    | none => none
   | .out i =>
     match s.evs[i]? with
     | some e =>
@@ -119,6 +125,7 @@ def expectedFins : Kind → List Nat
   | .hold => [0, 3]
   | .decErr => []
   | .refused => []
+  | .split => [3]
 
 /-- the canonical complete run of one event (used by the driver to predict the observation) -/
 def script (i : Nat) : Kind → List Op
@@ -127,5 +134,6 @@ def script (i : Nat) : Kind → List Op
   | .hold => [.get i, .stream i, .take i, .hold i, .propagate i, .out i, .commit i]
   | .decErr => [.get i, .decodeErr i]
   | .refused => [.get i, .refuse i]
+  | .split => [.get i, .stream i, .take i, .spawn i, .finOther, .finOther, .out i, .commit i]
 
 end FileD.Life
